@@ -231,6 +231,7 @@ def c18d(ctx, tu):
                detail="" if ok else "an opaque value must be dumped as exactly sizeof(T) bytes starting at its address")
     for fn in tu.find(NS + "hexdump"):
         c18d_walk(ctx, tu, fn)
+        c18d_layout(ctx, tu, fn)
     return n
 
 
@@ -251,6 +252,99 @@ def _ptr_t(t):
 
 def _has(tree, pred):
     return any(pred(t) for t in lib.subtrees(tree))
+
+
+def c18d_layout(ctx, tu, fn):
+    """Line breaks of the hex dump, for every size in the property's family (1..40 bytes): a line break follows the
+    header exactly when the object is larger than 8 bytes, and follows byte number k (0-based) exactly when
+    k mod 16 == 15.  Each branch that guards the insertion of a newline is found (in the function or in a lambda it
+    defines), classified by what its condition reads - the size parameter, or a counter the walk increments - and its
+    condition is interpreted over the whole domain.  Guards that cannot be classified are analysis broken."""
+    from engine.table import Interp, Unknown
+    from rules.common import Oracle
+    bodies = [fn]
+    for b, e in fn.events():
+        if e["e"] == "lambda" and e.get("callop") in tu.fns:
+            bodies.append(tu.fns[e["callop"]])
+    size_idx = [i for i, p in enumerate(fn.rec["params"]) if _unq(p["t"]) in ("unsigned long", "size_t", "std::size_t", "unsigned long long", "unsigned int")]
+    # named constants of the function (const locals with a literal value), also when read inside a lambda
+    consts = {}
+    for b, e in fn.events():
+        if e["e"] == "decl" and (e.get("type") or "").startswith("const ") and isinstance(e.get("init"), list):
+            try:
+                v = Interp(fn, Oracle()).ev(e["init"])
+                if isinstance(v, int) and not isinstance(v, bool):
+                    consts[e["name"]] = v
+            except Unknown:
+                pass
+
+    def seed(it, cond):
+        for t in lib.subtrees(cond):
+            if isinstance(t, list) and t[:1] == ["var"] and len(t) > 2 and t[2] in consts:
+                it.env[t[1]] = consts[t[2]]
+    guards = []
+    for f in bodies:
+        for blk in f.rec["blocks"]:
+            if not any(e["e"] == "call" and e.get("op") == "<<" and ["char", 10] in (e.get("args") or []) for e in blk["ev"]):
+                continue
+            preds = [pb for pb in f.rec["blocks"] if blk["id"] in (pb.get("succ") or []) and (pb.get("term") or {}).get("kind") == "if"]
+            if len(preds) != 1:
+                ctx.ob("C18.d.layout", NS + "hexdump", None, pattern=fn.pat, unit=tu.name,
+                       detail="a newline is inserted at a place this rule cannot attribute to one guard")
+                return
+            pb = preds[0]
+            guards.append((f, pb, pb["succ"].index(blk["id"]) == 0))
+    head = row = None
+    why = None
+    for f, pb, on_true in guards:
+        cond = pb["term"]["cond"]
+        leaves = [t for t in lib.subtrees(cond) if isinstance(t, list) and t[:1] in (["param"], ["oparam"], ["var"])]
+        names = set((t[0], t[1]) for t in leaves)
+        reads_size = any(t[0] in ("param", "oparam") and f is fn and t[1] in size_idx for t in leaves) or \
+            any(t[0] == "oparam" and t[1] in size_idx for t in leaves)
+        vars_ = [t for t in leaves if t[0] == "var" and not (len(t) > 2 and t[2] in consts)]
+        try:
+            if reads_size and not vars_:
+                if head is not None:
+                    why = why or "more than one guard on the size decides the line break after the header"
+                head = True
+                for size in range(1, 41):
+                    o = Oracle(params={i: size for i in size_idx}, any_param=True)
+                    it = Interp(f, o)
+                    seed(it, cond)
+                    got = bool(it.truth(it.ev(cond))) == on_true
+                    if got != (size > 8) and why is None:
+                        why = "a %d-byte object %s a line break after the header" % (size, "gets" if got else "does not get")
+            elif len(set(t[1] for t in vars_)) == 1 and not reads_size:
+                vid = vars_[0][1]
+                incs = [(b2["id"], i) for b2 in f.rec["blocks"] for i, e in enumerate(b2["ev"])
+                        if e["e"] == "incdec" and e.get("op") == "++" and isinstance(e.get("x"), list) and e["x"][:2] == ["var", vid]]
+                if len(incs) != 1:
+                    raise Unknown("the counter of the row guard is not incremented exactly once per byte")
+                ib = incs[0][0]
+                pre = ib == pb["id"] or (pb["id"] in cfg.reach(f, ib) and ib not in cfg.reach(f, pb["id"]))
+                if row is not None:
+                    why = why or "more than one guard decides the line break after a byte"
+                row = True
+                for k in range(0, 40):
+                    it = Interp(f, Oracle(any_param=True))
+                    seed(it, cond)
+                    it.env[vid] = k + 1 if pre else k
+                    got = bool(it.truth(it.ev(cond))) == on_true
+                    if got != (k % 16 == 15) and why is None:
+                        why = "byte number %d %s followed by a line break" % (k, "is" if got else "is not")
+            else:
+                raise Unknown("a newline guard reads neither just the size nor just one counter")
+        except Unknown as u:
+            ctx.ob("C18.d.layout", NS + "hexdump", None, pattern=fn.pat, unit=tu.name, detail="cannot interpret: %s" % u)
+            return
+    if head is None or row is None:
+        ctx.ob("C18.d.layout", NS + "hexdump", None, pattern=fn.pat, unit=tu.name,
+               detail="the guards of the header / row line breaks were not both found")
+        return
+    ctx.ob("C18.d.layout", NS + "hexdump", why is None, pattern=fn.pat, unit=tu.name,
+           detail="" if why is None else "hex-dump line breaks for sizes 1..40 (after the header iff size > 8, after every "
+           "16th byte): " + why)
 
 
 def c18d_walk(ctx, tu, fn):
@@ -578,7 +672,7 @@ def run(ctx):
         "sentry local that lives to the end of the function; C18.d an opaque value is dumped as sizeof(T) bytes from "
         "its address; C18.e compile-time witnesses for the dispatch traits over the type family.")
     ctx.assumptions = ["the standard library renders leaves under the installed flags as documented"]
-    ctx.not_decided = ["digits and line breaks of the hex dump for every size"]
+    ctx.not_decided = ["digits of the hex dump (the standard library renders them)"]
     units = []
     n = 0
     n_nested = 0
